@@ -1,12 +1,13 @@
 """Shared analysis context: program, call graph, effects, folder - built once per check run."""
 from __future__ import annotations
 
+import ast
 import os
 from functools import cached_property
 from typing import Dict, List, Set
 
 from .callgraph import CallGraph
-from .cfg import CFG, build_cfg
+from .cfg import CFG, build_cfg, reaching_defs
 from .consts import Folder
 from .effects import Effects
 from .model import AnalysisError, FuncInfo, Program
@@ -38,6 +39,7 @@ class Ctx:
         self.cg = CallGraph(self.prog)
         self.folder = Folder(self.prog)
         self._cfgs: Dict[str, CFG] = {}
+        self._rdefs: Dict[str, dict] = {}
 
     @cached_property
     def effects(self) -> Effects:
@@ -47,6 +49,26 @@ class Ctx:
         if fi.key not in self._cfgs:
             self._cfgs[fi.key] = build_cfg(fi.node)
         return self._cfgs[fi.key]
+
+    def rdefs(self, fi: FuncInfo):
+        if fi.key not in self._rdefs:
+            self._rdefs[fi.key] = reaching_defs(self.cfg(fi))
+        return self._rdefs[fi.key]
+
+    def defs_reaching(self, fi: FuncInfo, use: "ast.AST", name: str):
+        """Definition statements (ast nodes; the function node itself for parameters) of ``name`` reaching ``use``."""
+        cfg = self.cfg(fi)
+        try:
+            nid = cfg.node_containing(use, fi.module.parents)
+        except AnalysisError:
+            return None
+        ins = self.rdefs(fi)[nid].get(name)
+        if ins is None:
+            return []
+        out = []
+        for d in ins:
+            out.append(fi.node if d == cfg.entry else cfg.nodes[d].stmt)
+        return out
 
     @cached_property
     def lib_entries(self) -> List[FuncInfo]:
